@@ -223,11 +223,21 @@ func (w *World) executor(op *Op) (failsafe.Executor[R], context.Context) {
 		ctx = context.Background()
 	case CtxCancel:
 		var cancel context.CancelFunc
-		ctx, cancel = context.WithCancel(context.Background())
+		if op.CtxCause {
+			var cc context.CancelCauseFunc
+			ctx, cc = context.WithCancelCause(context.Background())
+			cancel = func() { cc(errCause) }
+		} else {
+			ctx, cancel = context.WithCancel(context.Background())
+		}
 		w.cancels[op.ExecID] = cancel
 	case CtxDeadline:
 		var cancel context.CancelFunc
-		ctx, cancel = context.WithTimeout(context.Background(), op.CtxD)
+		if op.CtxCause {
+			ctx, cancel = context.WithTimeoutCause(context.Background(), op.CtxD, errCause)
+		} else {
+			ctx, cancel = context.WithTimeout(context.Background(), op.CtxD)
+		}
 		w.cancels[op.ExecID] = cancel
 	case CtxValue:
 		ctx = context.WithValue(context.Background(), ctxKey("k"), "v")
@@ -236,7 +246,13 @@ func (w *World) executor(op *Op) (failsafe.Executor[R], context.Context) {
 		var cancel context.CancelFunc
 		ctx = context.WithValue(context.Background(), ctxKey("k"), "v")
 		ctx = withCacheKey(ctx, op.CtxKey)
-		ctx, cancel = context.WithCancel(ctx)
+		if op.CtxCause {
+			var cc context.CancelCauseFunc
+			ctx, cc = context.WithCancelCause(ctx)
+			cancel = func() { cc(errCause) }
+		} else {
+			ctx, cancel = context.WithCancel(ctx)
+		}
 		w.cancels[op.ExecID] = cancel
 	}
 	if ctx != nil {
